@@ -107,6 +107,7 @@ var replayers = map[string]func(rn *Runner, rp *Replay) (impl, model string, agr
 			env = &Env{}
 		}
 		start := parsePath(rp.Start)
+		allRoutes = true
 		res, err, p := execImpl(d.Root, start, env, rp.Text)
 		impl := ""
 		if p != nil {
